@@ -16,7 +16,8 @@ RULE = ('every Metric class x constructor grid (k in -7..9, masked/oov value tup
         'base) on random examples: classes 1..5, lengths 1..6, integer scores in -3..3 with ties, constant rows, +-0.0, '
         '+-1e30, every masking pattern incl. fully masked; non-trivial = statistic not identically zero or a corner '
         '(tie at the maximum, k<1, k>=classes, fully masked); distinct = distinct case JSON')
-TRUSTED = ['jax eager op semantics on CPU (argmax, argsort, log_softmax, one_hot, scatter): exercised, not modelled',
+TRUSTED = ['tools/lib/mtr.py: the reading of the jnp constructs of the evaluate_example bodies (jnp.argmax = first index of the maximum, jnp.argsort = stable ascending, [:e] = python slice, astype(float32) of a boolean = 0/1, .at[i, j].set for in-range indices), listed in its header',
+           'jax eager op semantics on CPU (argmax, argsort, log_softmax, one_hot, scatter): exercised, not modelled',
            'float32 arithmetic is exact on the generated integer scores (|x| < 2^24, or +-1e30 / +-inf combined only with 0 / +-inf mask entries)']
 ASSUMPTIONS = ['targets lie in [0, num_classes) or equal a masked target value; domain ids lie in [0, num_domains); predictions are finite (logits masks may be +-inf); num_classes >= 1',
                'cross-entropy values are parameters of the model (per token); the real log-softmax is compared with a float64 log-sum-exp reference within 1e-5*(1+|x|)']
